@@ -16,6 +16,9 @@ FIXED = [
     ("C10", "2559a82", "ill-typed function arguments panicked: substr(name, x), substr(name, 2, -1), replace(name, a), power(2, x), log(2, x), format_time(name), rand(0), rand(5, 1)", ["substr-bad-pos", "substr-neg-len", "replace-one-arg", "power-bad", "log-bad", "format-time-text", "rand-zero", "rand-reversed"]),
     ("C10", "c4a4788", "`where is_dir = maybe` panicked in Variant::to_bool (expect)", ["bool-maybe"]),
     ("C10", "f4ba877", "`modified = '2020-02-28 25:61'` and `modified = '-x'` panicked in parse_datetime (unwrap)", ["date-25-61"]),
+    ("C15", "39181ba", "the per-row value cache was keyed by an incomplete rendering of the expression: `size + 1, size - 1` printed the same value twice, `(2 + 3) * 4` printed 14, `power(size, 2), power(size, 3)` shared one result", ["plus-minus-neighbours", "bracket-placement", "power-later-arg", "same-subexpr-in-one", "left-assoc"]),
+    ("C15", "499e0dc", "a leading minus on a column or function call was ignored (`-size` printed the size)", ["neg-column"]),
+    ("C15", "5e1797f", "a negative integer literal compared with an integer value was read as 0 (`where -size < -13` matched every file)", ["neg-column"]),
 ]
 
 OPEN = [
